@@ -1,5 +1,7 @@
 package wpool
 
+import "github.com/glebziz/fs_db/internal/verifhook"
+
 func (p *Pool) lazySend(e Event) {
 	p.listM.Lock()
 	defer p.listM.Unlock()
@@ -10,6 +12,7 @@ func (p *Pool) lazySend(e Event) {
 
 func (p *Pool) lazyResend() {
 	if !p.lazySendM.TryLock() {
+		verifhook.Point("ls.tryLockFailed")
 		return
 	}
 
@@ -25,6 +28,7 @@ func (p *Pool) lazyResend() {
 			n := p.el.PopBack()
 			p.listM.Unlock()
 			if n == nil {
+				verifhook.Point("fl.beforeExit")
 				return
 			}
 
